@@ -2,7 +2,7 @@
     Property theorems only. *)
 From Coq Require Import Reals List ZArith.
 From Interval Require Import Real.Xreal Interval.Interval Eval.Prog Eval.Tree Eval.Eval.
-From FeosVerif Require Import ProgSem ParamLookup.
+From FeosVerif Require Import ProgSem ParamLookup Canon.
 
 (** A sub-model extracted with [subset] and a model built directly from the same records with the
     same options whose regenerated programs are syntactically identical denote the same function:
@@ -27,3 +27,26 @@ Theorem C09_enclosure_sound : forall prec P inp k,
   contains (I.convert (nth k (evalI prec P inp) I.nai)) (out_ext P (inputs_R inp) k).
 Proof. exact evalI_correct. Qed.
 Print Assumptions C09_enclosure_sound.
+
+(** Relabelling and zero-mole padding, for ALL states.  Both regenerated programs read selections [piA], [piB] of one
+    shared environment (the state variables — permuted, or with the padded mole number flagged as literally zero — and
+    the distinct constant values).  If the verified canonicaliser of [Canon.v] (associativity and commutativity of + and *,
+    x - y = x + (-y), x / y = x * /y, x^2 = x * x, 0 * x = 0, 0 + x = x, -0 = 0, sharing) assigns the same identifier to
+    the two outputs, they are equal for every value of the shared environment: every state, every value of the non-zero
+    constants — in the total real semantics, hence (second theorem) wherever both are defined. *)
+Theorem C09_canonical_programs_agree : forall A B zs piA piB oa ob (env : list R),
+  canon_eqb A B zs piA piB oa ob = true ->
+  length env = length zs ->
+  (forall j, (j < length zs)%nat -> nth j zs false = true -> nth j env 0%R = 0%R) ->
+  nth oa (eval_real A (sel 0%R piA env)) 0%R = nth ob (eval_real B (sel 0%R piB env)) 0%R.
+Proof. exact canon_sound. Qed.
+Print Assumptions C09_canonical_programs_agree.
+
+Theorem C09_canonical_programs_agree_where_defined : forall A B zs piA piB oa ob (env : list R),
+  canon_eqb A B zs piA piB oa ob = true ->
+  length env = length zs ->
+  (forall j, (j < length zs)%nat -> nth j zs false = true -> nth j env 0%R = 0%R) ->
+  wf A (sel 0%R piA env) oa -> wf B (sel 0%R piB env) ob ->
+  out_ext A (sel 0%R piA env) oa = out_ext B (sel 0%R piB env) ob.
+Proof. exact canon_sound_ext. Qed.
+Print Assumptions C09_canonical_programs_agree_where_defined.
